@@ -5,6 +5,7 @@ longer exists is skipped and counted, never guessed."""
 from __future__ import annotations
 
 import importlib
+import json
 import os
 import sys
 from concurrent.futures import ProcessPoolExecutor
@@ -191,15 +192,26 @@ def run(prop: str, repo: str, seed: int = 0, jobs: Optional[int] = None):
     # a behaviour-preserving refactoring the analysis cannot follow is answered "unknown" (exit 2), never with an alarm: that
     # outcome is recorded, and only an alarm on such a tree (or a missed / unanalysable breaking change) fails the self-test
     unknown = [r for r in g if r[2] == 'analysis-error']
+    # seeded changes the rules are documented not to report (seeded/UNREPORTED.json): recorded, not a failure of the self-test
+    documented = {}
+    from .report import VERIF
+    try:
+        with open(os.path.join(VERIF, 'seeded', 'UNREPORTED.json'), encoding='utf-8') as fh:
+            documented = {k: v for k, v in json.load(fh).items() if not k.startswith('_')}
+    except (OSError, ValueError):
+        documented = {}
+    known_miss = [r for r in b if r[0] in documented and r[2] in ('missed', 'analysis-error')]
     failed = [f'{r[0]} ({r[1]}): {r[2]} {r[3]}' for r in res
-              if r[2] in ('missed', 'false-alarm', 'error', 'wrong-rule') or (r[2] == 'analysis-error' and r[1] != 'benign')]
+              if r not in known_miss and (r[2] in ('missed', 'false-alarm', 'error', 'wrong-rule') or (r[2] == 'analysis-error' and r[1] != 'benign'))]
     bf = len([r for r in b if r[2] == 'flagged'])
     gs = len([r for r in g if r[2] == 'silent'])
     return {
         'summary': f'breaking {bf}/{len(b) - len([r for r in b if r[2] == "skipped"])} flagged, '
                    f'benign {gs}/{len(g) - len([r for r in g if r[2] == "skipped"])} silent'
-                   + (f' ({len(unknown)} not followed: unknown)' if unknown else '') + f', {len(skipped)} skipped',
+                   + (f' ({len(unknown)} not followed: unknown)' if unknown else '')
+                   + (f', {len(known_miss)} documented as unreported' if known_miss else '') + f', {len(skipped)} skipped',
         'benign_unknown': [r[0] for r in unknown],
+        'documented_unreported': [r[0] for r in known_miss],
         'breaking_flagged': bf, 'breaking_total': len(b), 'benign_silent': gs, 'benign_total': len(g),
         'skipped': [r[0] for r in skipped],
         'failed': failed,
